@@ -69,7 +69,7 @@ func H_Concurrent() {
 		tc.Commit()
 	}
 	committed := false // set after B's Commit has returned
-	var hmu sync.Mutex  // protects the harness's own bookkeeping (committed, results)
+	var hmu sync.Mutex // protects the harness's own bookkeeping (committed, results)
 
 	// tree-determined value of k at a block
 	want := func(at string) (int, uint64) {
@@ -110,7 +110,14 @@ func H_Concurrent() {
 				hmu.Lock()
 				after := committed
 				hmu.Unlock()
-				v, hit := statecache.NewQueryBlockCache(sc, at).Get(key)
+				// a query cache at the block, or (at B) the committing block's own handle
+				var v statecache.Value
+				var hit bool
+				if vp.Param("vias", 1) == 2 && at == "B" && vp.Choose("via", 2) == 1 {
+					v, hit = b.Get(key)
+				} else {
+					v, hit = statecache.NewQueryBlockCache(sc, at).Get(key)
+				}
 				res := result{at: at, hit: hit, afterCommit: after}
 				if hit {
 					if mv, ok := v.(*MV); ok && mv != nil {
